@@ -51,6 +51,46 @@ fn set(out: &mut serde_json::Map<String, Value>, k: &str, st: &str, msg: &str) {
     out.insert(k.into(), json!({"st": st, "msg": first_line(msg)}));
 }
 
+/// The documented file-system lookup, written from README.md (and the `wit` feature description): see the call site.
+fn documented_fs_resolve<'a>(
+    root: &Path,
+    overrides: &HashMap<String, PathBuf>,
+    keys: &IndexMap<wac_types::BorrowedPackageKey<'a>, miette::SourceSpan>,
+) -> Result<IndexMap<wac_types::BorrowedPackageKey<'a>, Vec<u8>>, String> {
+    let mut packages = IndexMap::new();
+    for key in keys.keys() {
+        let (path, in_place) = match overrides.get(key.name) {
+            Some(p) if key.version.is_none() => {
+                if !p.is_file() { return Err(format!("local path `{}` for package `{}` does not exist", p.display(), key.name)); }
+                (p.clone(), true)
+            }
+            _ => {
+                let mut path = root.to_path_buf();
+                for segment in key.name.split(':') { path.push(segment); }
+                if let Some(v) = key.version { path.push(v.to_string()); }
+                let in_place = path.is_dir();
+                if !in_place { let os = path.as_mut_os_string(); os.push(".wasm"); }
+                (path, in_place)
+            }
+        };
+        let mut resolve = wit_parser::Resolve::new();
+        let pkg = if in_place && path.is_dir() {
+            Some(resolve.push_dir(&path).map_err(|e| format!("failed to resolve package `{}`: {e}", key.name))?.0)
+        } else if path.extension().and_then(std::ffi::OsStr::to_str) == Some("wit") {
+            Some(resolve.push_file(&path).map_err(|e| format!("failed to resolve package `{}`: {e}", key.name))?)
+        } else { None };
+        if let Some(pkg) = pkg {
+            let bytes = wit_component::encode(&resolve, pkg).map_err(|e| format!("failed to resolve package `{}`: {e}", key.name))?;
+            packages.insert(*key, bytes);
+            continue;
+        }
+        if !path.is_file() { continue; }
+        let bytes = std::fs::read(&path).map_err(|e| format!("failed to resolve package `{}`: {e}", key.name))?;
+        packages.insert(*key, bytes);
+    }
+    Ok(packages)
+}
+
 fn compose(job: &Value) -> Value {
     let mut out = serde_json::Map::new();
     let outdir = PathBuf::from(s(job, "outdir"));
@@ -73,11 +113,25 @@ fn compose(job: &Value) -> Value {
     };
     let overrides: HashMap<String, PathBuf> = job["deps"].as_array().map(|a| a.iter()
         .map(|p| (p[0].as_str().unwrap().to_string(), PathBuf::from(p[1].as_str().unwrap()))).collect()).unwrap_or_default();
-    let fsr = FileSystemPackageResolver::new(s(job, "deps_dir"), overrides, false);
-    let pk = match stage(|| fsr.resolve(&keys).map_err(|e| e.to_string())) {
+    // Reference: the package map built HERE from the documented locations (README: `--dep name=path`, else
+    // <deps-dir>/<one directory per ':' segment>[/<version>] as a WIT directory, else that path + ".wasm"),
+    // not by the repository's FileSystemPackageResolver -- a defect in the latter must not cancel out.
+    let root = PathBuf::from(s(job, "deps_dir"));
+    let pk = match stage(|| documented_fs_resolve(&root, &overrides, &keys)) {
         Ok(p) => p,
         Err((st, m)) => { set(&mut out, "fs", &st, &m); return Value::Object(out); }
     };
+    // the repository's resolver on the same keys, for the record (differences are reported by the driver)
+    let fsr = FileSystemPackageResolver::new(s(job, "deps_dir"), overrides.clone(), false);
+    let lib_fs = stage(|| fsr.resolve(&keys).map_err(|e| e.to_string()));
+    let lib_fs_same = match &lib_fs {
+        Ok(lp) => lp.len() == pk.len() && lp.iter().all(|(k, v)| pk.get(k) == Some(v)),
+        Err(_) => false,
+    };
+    out.insert("fs_lib".into(), match &lib_fs {
+        Ok(lp) => json!({"st":"ok","found": lp.keys().map(|k| k.to_string()).collect::<Vec<_>>(), "same_as_documented": lib_fs_same}),
+        Err((st, m)) => json!({"st":st,"msg":first_line(m),"same_as_documented": false}),
+    });
     let missing: Vec<String> = keys.keys().filter(|k| !pk.contains_key(*k)).map(|k| k.to_string()).collect();
     out.insert("fs".into(), json!({"st":"ok","msg":"","keys": keys.keys().map(|k| k.to_string()).collect::<Vec<_>>(),
                                    "missing": missing}));
